@@ -42,6 +42,7 @@ def run(ctx):
     channel_stream(ctx, cirq, mods, checks, 90 * n)
     wrapper_stream(ctx, cirq, mods, checks, 120 * n)
     circuit_op_grid(ctx, cirq, mods, checks, n)
+    control_grid(ctx, cirq, mods, checks, n)
     predicate_stream(ctx, cirq, mods, 300 * n)
     evaluate(ctx, checks)
 
@@ -359,6 +360,76 @@ def circuit_op_grid(ctx, cirq, mods, checks, n):
         checks.append(('wrapper:circuit_op_grid', f'fcll_close {TOL} {model} {gates.fmat(um)}',
                        f'CircuitOperation.with_qubits (body {[[g.fam, w] for g, w in body]}, repetitions={reps}) changes the matrix',
                        dict(signature='wrapper:circuit_op_grid:with_qubits', body=key, reps=reps, description='with_qubits')))
+
+
+def control_grid(ctx, cirq, mods, checks, n):
+    """Controlled gates and controlled_by operations over EVERY control-value set (fixed for every seed): each subset of the levels of
+    one control qudit of dimension 3..5, and every assignment of {0, 1, (0,1)} to two or three qubit controls, with sub gates that
+    have and have not a specialised controlled form.  Every description: unitary protocol, apply_unitary (operation and gate, through
+    Circuit.unitary), decompose_once, decompose."""
+    import itertools
+    rng = ctx.rng
+    subs = [gates.G('XPow', dict(e=0.3, s=0.0), (2,)), gates.G('YPow', dict(e=0.5, s=0.25), (2,)), gates.G('HPow', dict(e=1.0, s=0.0), (2,)),
+            gates.G('Rz', dict(rads=0.9), (2,)), gates.G('ZPow', dict(e=1.0, s=0.0), (2,)), gates.G('XPow', dict(e=1.0, s=0.0), (2,))]
+    cases = []
+    for d in (3, 4, 5):
+        for r in range(1, d + 1):
+            for levels in itertools.combinations(range(d), r):
+                cases.append(([d], [list(levels)]))
+    for nc in (2, 3):
+        for combo in itertools.product(([0], [1], [0, 1]), repeat=nc):
+            cases.append(([2] * nc, [list(v) for v in combo]))
+    if ctx.tier == 'quick':
+        # all qudit subsets and all 2-control assignments; a seed-independent half of the 3-control ones
+        cases = [c for i, c in enumerate(cases) if len(c[0]) < 3 or i % 2 == 0]
+    for ci, (cdims, vals) in enumerate(cases):
+        sub = subs[ci % len(subs)] if ctx.tier == 'quick' else None
+        for sub in ([sub] if sub is not None else subs):
+            g = gates.G('Ctrl', dict(sub=sub, cdims=cdims, cv=('pos', vals), bools=False, as_sets=True), tuple(cdims) + sub.shape)
+            cg = g.cirq_gate(cirq, mods)
+            qs = cirq.LineQid.for_qid_shape(g.shape)
+            cqs, tqs = qs[:len(cdims)], qs[len(cdims):]
+            op_by = sub.cirq_gate(cirq, mods).on(*tqs).controlled_by(*cqs, control_values=[tuple(v) for v in vals])
+            model = f'(gate_model FOps {g.coq()})'
+            descs = {}
+            try:
+                descs['cirq.unitary(gate)'] = cirq.unitary(cg)
+                descs['cirq.unitary(controlled_by op)'] = cirq.unitary(op_by)
+                descs['apply_unitary(gate)'] = np.asarray(cirq.apply_unitary(cg, cirq.ApplyUnitaryArgs.for_unitary(qid_shape=g.shape))).reshape(
+                    int(np.prod(g.shape)), -1)
+                descs['apply_unitary(controlled_by op)'] = cirq.Circuit(op_by).unitary(qubit_order=qs, qubits_that_should_be_present=qs)
+            except Exception as e:
+                ctx.violation('control_grid:raises', f'controlled {sub.fam} with control dims {cdims} values {vals} raised {type(e).__name__}: {e}',
+                              dict(kind='control_grid', sub=sub.key(), cdims=cdims, vals=vals))
+                continue
+            for name, u in descs.items():
+                ctx.count('control_grid', [sub.key(), cdims, vals, name], True, sample=dict(sub=sub.fam, control_dims=cdims, control_values=vals, description=name))
+                checks.append(('control_grid', f'fcll_close {TOL} {model} {gates.fmat(np.asarray(u))}',
+                               f'{name} of {sub.fam} {sub.p} controlled on dims {cdims} values {vals} is not the controlled matrix',
+                               dict(signature=f'control_grid:{name}', sub=sub.key(), cdims=cdims, vals=vals, description=name)))
+            for target, label in ((cg.on(*qs), 'gate'), (op_by, 'controlled_by op')):
+                for how in ('decompose_once', 'decompose'):
+                    try:
+                        pieces = cirq.decompose_once(target, None) if how == 'decompose_once' else cirq.decompose(target)
+                    except Exception as e:
+                        ctx.violation('control_grid:raises', f'{how} of controlled {sub.fam} ({label}) with control dims {cdims} values {vals} raised {type(e).__name__}: {e}',
+                                      dict(kind='control_grid', sub=sub.key(), cdims=cdims, vals=vals))
+                        continue
+                    if pieces is None:
+                        continue
+                    pieces = list(cirq.flatten_to_ops(pieces))
+                    if len(pieces) == 1 and pieces[0] == target:
+                        continue
+                    try:
+                        term = pieces_to_coq(cirq, pieces, qs)
+                    except Exception:
+                        term = None
+                    if term is None:
+                        continue
+                    ctx.count('control_grid', [sub.key(), cdims, vals, how, label], True)
+                    checks.append(('control_grid', f'fcll_close {TOL} (circ_unitary FOps {gates.nlist(g.shape)} {term}) {model}',
+                                   f'{how}({label}) of {sub.fam} {sub.p} controlled on dims {cdims} values {vals} multiplies to a different matrix',
+                                   dict(signature=f'control_grid:{how}', sub=sub.key(), cdims=cdims, vals=vals, description=f'{how}({label})')))
 
 
 def predicate_stream(ctx, cirq, mods, n):
